@@ -17,8 +17,25 @@ mod osshim {
         pub fn from_wide(w: &[u16]) -> WStr {
             WStr(w.to_vec())
         }
+        /// what `OsStr::len` answers on Windows: the length of the WTF-8 form in BYTES, not the number of UTF-16 units
         pub fn len(&self) -> usize {
-            self.0.len()
+            let u = &self.0;
+            let (mut i, mut n) = (0, 0);
+            while i < u.len() {
+                let c = u[i];
+                if c < 0x80 {
+                    n += 1;
+                } else if c < 0x800 {
+                    n += 2;
+                } else if (0xd800..0xdc00).contains(&c) && i + 1 < u.len() && (0xdc00..0xe000).contains(&u[i + 1]) {
+                    n += 4;
+                    i += 1;
+                } else {
+                    n += 3;
+                }
+                i += 1;
+            }
+            n
         }
     }
     impl AsRef<WStr> for WStr {
@@ -141,6 +158,7 @@ fn unhex(s: &str) -> Vec<u16> {
 }
 
 fn main() {
+    std::panic::set_hook(Box::new(|_| {}));
     let stdin = io::stdin();
     let out = io::stdout();
     let mut out = io::BufWriter::new(out.lock());
@@ -152,7 +170,15 @@ fn main() {
             continue;
         }
         let argv: Vec<Vec<u16>> = toks.map(unhex).collect();
-        let res = assemble_cmdline(argv.iter().map(|a| osshim::WStr(a.clone())).collect());
+        let input: Vec<osshim::WStr> = argv.iter().map(|a| osshim::WStr(a.clone())).collect();
+        let res = match std::panic::catch_unwind(std::panic::AssertUnwindSafe(|| assemble_cmdline(input))) {
+            Ok(r) => r,
+            Err(_) => {
+                // Popen::create would panic in the caller's thread: no command line at all
+                writeln!(out, "panic oracle=FAIL").unwrap();
+                continue;
+            }
+        };
         match res {
             Err(e) => {
                 let has_nul = argv.iter().any(|a| a.contains(&0));
